@@ -65,3 +65,71 @@ theorem specL_ok : ∀ (ds : List Nd) (r c : String), (specL (some r) (some c) d
 end
 
 end SnootyVerif.EventWalk
+
+namespace SnootyVerif.EventWalk
+
+/-! ### push-on-enter / pop-on-exit bookkeeping of handlers -/
+
+/-- A handler stack driven by the events: push the node on `enter` when `P` holds for it, pop on
+`exit` when `P` holds. `none` = pop from an empty stack (Python: IndexError). -/
+def bracket (P : Nat → Bool) : List Evt → List Nat → Option (List Nat)
+  | [], st => some st
+  | .enter i _ _ :: es, st => bracket P es (if P i then i :: st else st)
+  | .exit i _ _ :: es, st =>
+    if P i then
+      match st with
+      | [] => none
+      | _ :: st' => bracket P es st'
+    else bracket P es st
+  | _ :: es, st => bracket P es st
+
+theorem bracket_append (P : Nat → Bool) (a b : List Evt) (st st' : List Nat)
+    (h : bracket P a st = some st') : bracket P (a ++ b) st = bracket P b st' := by
+  induction a generalizing st with
+  | nil => simp [bracket] at h; subst h; rfl
+  | cons e a ih =>
+    cases e with
+    | enter i r c => simp only [List.cons_append, bracket] at h ⊢; exact ih _ h
+    | exit i r c =>
+      simp only [List.cons_append, bracket] at h ⊢
+      split
+      · rename_i hp
+        simp only [hp, if_true] at h
+        cases st with
+        | nil => simp at h
+        | cons s st2 => simp only at h ⊢; exact ih _ h
+      · rename_i hp
+        simp only [hp] at h
+        exact ih _ h
+    | pageStart r c => simp only [List.cons_append, bracket] at h ⊢; exact ih _ h
+    | pageEnd r c => simp only [List.cons_append, bracket] at h ⊢; exact ih _ h
+
+mutual
+theorem bracket_spec (P : Nat → Bool) (r c : Option String) : ∀ (d : Nd) (st : List Nat),
+    bracket P (spec r c d) st = some st
+  | .leaf i, st => by
+    simp only [spec, bracket]
+    cases h : P i <;> simp [h]
+  | .plain i cs, st => by
+    simp only [spec, List.cons_append, bracket]
+    rw [bracket_append P _ _ _ _ (bracketL_spec P r c cs _)]
+    cases h : P i <;> simp [bracket, h]
+  | .pre i pre cs, st => by
+    simp only [spec, List.cons_append, bracket, List.append_assoc]
+    rw [bracket_append P _ _ _ _ (bracketL_spec P r c pre _)]
+    rw [bracket_append P _ _ _ _ (bracketL_spec P r c cs _)]
+    cases h : P i <;> simp [bracket, h]
+  | .root i file cs, st => by
+    simp only [spec, List.cons_append, bracket]
+    rw [bracket_append P _ _ _ _ (bracketL_spec P _ _ cs _)]
+    cases h : P i <;> simp [bracket, h]
+theorem bracketL_spec (P : Nat → Bool) (r c : Option String) : ∀ (ds : List Nd) (st : List Nat),
+    bracket P (specL r c ds) st = some st
+  | [], st => by simp [specL, bracket]
+  | d :: ds, st => by
+    simp only [specL]
+    rw [bracket_append P _ _ _ _ (bracket_spec P r c d st)]
+    exact bracketL_spec P r c ds st
+end
+
+end SnootyVerif.EventWalk
